@@ -100,7 +100,10 @@ ENTRY = {
                       "lost), clean EOF at the end; what the task wrote is exactly a legal conversation followed by its payload (so a correct peer agrees); "
                       "both tasks TERMINATE against any byte stream, legal or not, that the peer finishes and closes. The wire bytes that the trace oracle of "
                       "the reference stream demands are proved to be such legal conversations with the verdict of the property text, and the theorems are "
-                      "instantiated on them (C03_peer_reference_*_wire_*). "
+                      "instantiated on them (C03_peer_reference_*_wire_*). The two legitimate differences between the implementations are stated explicitly "
+                      "(RefDiff.v): the reference's dialer accepts the header line repeatedly - its reaction differs on a second header only and against every "
+                      "legal listener it takes exactly litep2p's steps; the reference's names are text - the decoders agree on every UTF-8 name line and on "
+                      "every piece of an ASCII payload. "
                       "V1Lazy, dialer side: the future settles on its first poll (byte level); "
                       "for every application-data content, listener set and schedule the dialer's verdict is 'confirmed' iff the listener supports the "
                       "name (message level); the listener half of agreement is refuted by a witness (upstream-documented pitfall)."),
